@@ -457,7 +457,7 @@ pub fn honest_sweep(vmax: u64, want: &[&str], deadline: Instant) -> Part {
             };
             for r in &receivers {
                 check_pair(&sender, s, r, &mut tally, &mut viols);
-                if viols.len() > 20 {
+                if viols.iter().filter(|v| want.contains(&v.prop)).count() > 20 {
                     break;
                 }
             }
@@ -619,7 +619,7 @@ pub fn arbitrary_sweep(vmax: u64, want: &[&str], deadline: Instant) -> Part {
             }
             for r in &receivers {
                 check_arbitrary(r, d, i % 7 == 0, &mut tally, &mut viols);
-                if viols.len() > 20 {
+                if viols.iter().filter(|v| want.contains(&v.prop)).count() > 20 {
                     break;
                 }
             }
@@ -796,11 +796,11 @@ pub fn two_member_sweep(vmax: u64, want: &[&str], deadline: Instant) -> Part {
                         tally.inc("messages_with_both_members");
                     }
                     script += 1;
-                    if script >= arity || viols.len() > 20 {
+                    if script >= arity || viols.iter().filter(|v| want.contains(&v.prop)).count() > 20 {
                         break;
                     }
                 }
-                if viols.len() > 20 {
+                if viols.iter().filter(|v| want.contains(&v.prop)).count() > 20 {
                     break;
                 }
             }
